@@ -583,3 +583,124 @@ Definition qfactor_mag (fm fma : mat) : Q :=
   if Qltb (1 # 1000000) (Qabs (m3 fm))
   then m0 fma + (m1 fma * m2 fma / Qabs (m3 fm)) * (1 + m3 fma / Qabs (m3 fm))
   else m0 fma.
+
+(* ================================================================== *)
+(* cff.Font: the CFF package's own copies of the queries               *)
+(* (cff/font.go; a cff.Font is a FontInfo with its FontMatrix plus the *)
+(* same Outlines, so the value is again a [cff_font])                  *)
+
+(* cff.Font.Widths *)
+Definition M_cfont_widths (f : cff_font) : list Q := map g_width (cf_glyphs f).
+
+(* cff.Font.WidthsPDF: PDF GLYPH space units - widths[gid] = g.Width * (fm[0] * 1000) *)
+Definition M_cfont_widths_pdf (f : cff_font) : outcome (list Q) :=
+  omapM (fun gid => g <- cf_glyph f gid ;;
+                    fm <- glyph_matrix f (cf_top f) gid ;;
+                    Ok (g_width g * (m0 fm * 1000)))
+        (gids (cf_numglyphs f)).
+
+(* cff.Font.WidthsMapPDF: q := FontMatrix[0]; if ... { q -= ... }; q *= 1000;
+   widths[glyph.Name] = glyph.Width * q *)
+Definition M_cfont_widths_map_pdf (f : cff_font) : option (list (N * Q)) :=
+  if cf_cid f then None
+  else Some (map (fun g => (g_name g, g_width g * (qfactor (cf_top f) * 1000))) (cf_glyphs f)).
+
+(* cff.Font.GlyphWidthPDF *)
+Definition M_cfont_glyph_width_pdf (f : cff_font) (gid : nat) : outcome Q :=
+  fm <- glyph_matrix f (cf_top f) gid ;;
+  g <- cf_glyph f gid ;;
+  Ok (g_width g * (qfactor fm * 1000)).
+
+(* cff.Font.FontBBoxPDF: no `first` flag - the accumulator itself is tested:
+   if bbox.IsZero() { bbox = glyphBox } else { bbox.Extend(glyphBox) } *)
+Fixpoint fontbbox_pdf_loop2 (boxes : list qrect) (acc : qrect) : qrect :=
+  match boxes with
+  | [] => acc
+  | g :: t =>
+      if qrect_is_zero g then fontbbox_pdf_loop2 t acc
+      else if qrect_is_zero acc then fontbbox_pdf_loop2 t g
+      else fontbbox_pdf_loop2 t (qrect_extend acc g)
+  end.
+
+Definition M_cfont_font_bbox_pdf (f : cff_font) : outcome qrect :=
+  boxes <- omapM (M_cff_glyph_bbox_pdf f (cf_top f)) (gids (cf_numglyphs f)) ;;
+  Ok (fontbbox_pdf_loop2 boxes qrect_zero).
+
+(* cff.Outlines.BBox: the loop of Font.FontBBox over the glyphs' Extents *)
+Definition M_outlines_bbox (f : cff_font) : outcome rect :=
+  boxes <- omapM M_extent (cf_glyphs f) ;;
+  Ok (M_fontbbox boxes).
+
+(* cff.Outlines.BuiltinEncoding: nil unless len(o.Encoding) == 256; entry i is
+   ".notdef" (name id 0) when gid <= 0 || gid >= len(o.Glyphs), else the
+   glyph's name.  glyph.ID is unsigned: gid <= 0 is gid == 0. *)
+Definition notdef_name : N := 0%N.
+
+Definition M_builtin_encoding (enc : list nat) (glyphs : list glyph) : option (list N) :=
+  if (length enc =? 256)%nat then
+    Some (map (fun gid => if (gid =? 0)%nat || (length glyphs <=? gid)%nat then notdef_name
+                          else match nth_error glyphs gid with
+                               | Some g => g_name g
+                               | None => notdef_name
+                               end) enc)
+  else None.
+
+(* ------------------------------------------------------------------ *)
+(* cff.Font.Clone over a small store model.
+   A struct is a list of field values.  A field holds a scalar, an ARRAY value
+   (FontMatrix [6]float64: copied with the struct), or a REFERENCE (slice,
+   map, pointer, func: the struct holds the reference, the elements live in
+   [objs] under the reference's identity). *)
+Inductive fval : Type :=
+| FScalar (z : Z)
+| FArray (l : list Z)
+| FRef (r : nat).
+
+Record store : Type := mkStore {
+  st_structs : list (list fval);     (* location = index *)
+  st_objs : list (list Z)            (* referenced objects, identity = index *)
+}.
+
+(* a cff.Font value: the two embedded pointers *)
+Record cfont_ptr : Type := mkCfont { p_info : nat; p_outl : nat }.
+
+Definition st_struct (s : store) (loc : nat) : list fval := nth loc (st_structs s) [].
+
+(* fontInfo := *f.FontInfo; outlines := *f.Outlines; return &Font{&fontInfo, &outlines} *)
+Definition M_clone (s : store) (f : cfont_ptr) : store * cfont_ptr :=
+  let n := length (st_structs s) in
+  (mkStore (st_structs s ++ [st_struct s (p_info f); st_struct s (p_outl f)]) (st_objs s),
+   mkCfont n (S n)).
+
+Fixpoint list_set {A} (l : list A) (i : nat) (x : A) : list A :=
+  match l, i with
+  | [], _ => []
+  | _ :: t, O => x :: t
+  | a :: t, S k => a :: list_set t k x
+  end.
+
+(* p.field = v *)
+Definition st_assign (s : store) (loc field : nat) (v : fval) : store :=
+  mkStore (list_set (st_structs s) loc (list_set (st_struct s loc) field v)) (st_objs s).
+
+(* p.field[j] = x: through a reference the shared object changes; an array
+   field is part of the struct *)
+Definition st_write_elem (s : store) (loc field j : nat) (x : Z) : store :=
+  match nth_error (st_struct s loc) field with
+  | Some (FRef r) => mkStore (st_structs s) (list_set (st_objs s) r (list_set (nth r (st_objs s) []) j x))
+  | Some (FArray l) => st_assign s loc field (FArray (list_set l j x))
+  | _ => s
+  end.
+
+(* what a holder of the pointer [loc] observes: the fields, references followed *)
+Inductive fobs : Type := OScalar (z : Z) | OArray (l : list Z) | OObj (r : nat) (l : list Z).
+
+Definition st_observe (s : store) (loc : nat) : list fobs :=
+  map (fun v => match v with
+                | FScalar z => OScalar z
+                | FArray l => OArray l
+                | FRef r => OObj r (nth r (st_objs s) [])
+                end) (st_struct s loc).
+
+Definition cfont_observe (s : store) (f : cfont_ptr) : list fobs * list fobs :=
+  (st_observe s (p_info f), st_observe s (p_outl f)).
